@@ -61,20 +61,19 @@ theorem multi_app_noninterference_events (progs : ThreadId → Prog) (evs : List
   rw [WsgiConc.runEvents_eq_run] at hs ⊢
   exact multi_app_noninterference_machine progs _ a hs
 
-/-- tie to the source: the stores and `HeaderDict._ts` are `threading.local` objects (the attribute
-lists themselves do not matter for this property: an attribute that is not thread-local is a plain
-slot of its instance, hence of its application), the shared error objects carry no cookies,
+/-- tie to the source: each instance keeps its store in its own `_ts_props` slot (whether attributes
+or `HeaderDict._ts` are thread-local does not matter for this property: what is not thread-local is
+a plain slot of its instance, hence of its application), the shared error objects carry no cookies,
 exception or traceback, and a probe that made requests fail onto each of them left them unchanged -/
 theorem ts_tables_as_modelled :
-    Gen.headerDictTsThreadLocal = true ∧ Gen.storesAreThreadLocal = true ∧
-    Gen.requestStoreName = "_ts_props" ∧ Gen.responseStoreName = "_ts_props" ∧
-    (∀ row ∈ Gen.errorsMap, row.2.2.2.2.2 = true) ∧ Gen.errorsMapReadOnly = true := by
+    Gen.tsRequestStoreName = "_ts_props" ∧ Gen.tsResponseStoreName = "_ts_props" ∧
+    (∀ row ∈ Gen.tsErrorsMap, row.2.2.2.2.2 = true) ∧ Gen.tsErrorsMapReadOnly = true := by
   decide
 
 /-- tie to the source: every plain (not thread-local) slot or module object that the probe saw
 touched while serving was left unchanged or rewritten with equal content -/
 theorem multi_app_shared_objects_read_only :
-    ∀ x ∈ Gen.sharedTouched, x.2.2 = "read-only" ∨ x.2.2 = "idempotent" := by
+    ∀ x ∈ Gen.tsSharedTouched, x.2.2 = "read-only" ∨ x.2.2 = "idempotent" := by
   decide
 
 section Witness
